@@ -1906,5 +1906,17 @@ func appendNotNilFilter(field *aggregateRequestTarget, childField string) {
 	}
 
 	typedChildBlock := childBlock.(map[string]any)
+	if existing, ok := typedChildBlock["_ne"]; ok && existing != nil {
+		// The field is already compared with another value using _ne: the not nil condition
+		// must not replace that condition, it is added beside it.
+		var notNil any = map[string]any{"_ne": nil}
+		if childField != "" {
+			notNil = map[string]any{childField: notNil}
+		}
+		conditions := field.filter.Value().Conditions
+		and, _ := conditions["_and"].([]any)
+		conditions["_and"] = append(and, notNil)
+		return
+	}
 	typedChildBlock["_ne"] = nil
 }
